@@ -121,3 +121,42 @@ impl Solo {
         guarded(|| self.chit.verif_gc_keys_marked_for_deletion())
     }
 }
+
+/// (key, value, version, status)
+pub type KvSpec = (String, String, u64, u8);
+
+impl Solo {
+    /// Makes the node learn member `x` (if needed) and installs a copy with the given frontier and
+    /// entries through crafted deltas, the way a peer holding exactly that copy would.
+    pub fn install_copy(&mut self, x: &Id, hb: u64, gc: u64, mv: u64, kvs: &[KvSpec]) -> Result<(), String> {
+        use crate::codec::{Kv, NodeDigest, Op};
+        let syn = Msg::Syn { digest: vec![(x.clone(), NodeDigest { heartbeat: hb, gc: 0, max: 0 })], cluster: self.cluster.clone() };
+        self.send(&syn, BlockPlan::Auto { size: 16_384 })?;
+        let mut sorted: Vec<&KvSpec> = kvs.iter().filter(|k| k.2 >= 1 && k.2 <= mv).collect();
+        sorted.sort_by_key(|k| k.2);
+        sorted.dedup_by_key(|k| k.2);
+        let mut ops = vec![Op::Node { id: x.clone(), gc, from: 0 }];
+        let mut top = 0;
+        let mut seen = std::collections::HashSet::new();
+        for (k, v, ver, st) in sorted.iter().map(|k| (&k.0, &k.1, k.2, k.3)) {
+            if !seen.insert(k.clone()) {
+                continue;
+            }
+            ops.push(Op::Kv(Kv { key: k.clone(), value: v.clone(), version: ver, status: st % 3 }));
+            top = ver;
+        }
+        if top == 0 {
+            if mv > 0 {
+                ops.push(Op::SetMax(mv));
+            }
+            self.send(&Msg::Ack { ops }, BlockPlan::Auto { size: 16_384 })?;
+        } else {
+            self.send(&Msg::Ack { ops }, BlockPlan::Auto { size: 16_384 })?;
+            if mv > top {
+                let ops = vec![Op::Node { id: x.clone(), gc, from: top }, Op::SetMax(mv)];
+                self.send(&Msg::Ack { ops }, BlockPlan::Auto { size: 16_384 })?;
+            }
+        }
+        Ok(())
+    }
+}
